@@ -717,6 +717,10 @@ impl World {
     }
 
     fn final_checks(&mut self) {
+        let rich = self.bb.borrow().rich_payloads;
+        if rich > 0 {
+            *self.stats.probes.entry("payload-all-kinds").or_insert(0) += rich;
+        }
         let deep = self.bb.borrow().deep_payloads;
         if deep > 0 {
             *self.stats.probes.entry("payload-at-depth-limit").or_insert(0) += deep;
